@@ -42,6 +42,7 @@ func runC17(c *Ctx) {
 	c17Cardinal(&g17{c, NewRng(c.Seed, 1708)}, 300*scale)
 	c17Primes(&g17{c, NewRng(c.Seed, 1709)}, scale)
 	c17Exhaustive(&g17{c, NewRng(c.Seed, 1710)})
+	c17More(&g17{c, NewRng(c.Seed, 1711)}, 1500*scale)
 }
 
 // ---------------------------------------------------------------------------------- generators
